@@ -1,8 +1,8 @@
 (** Extraction of the router model for the correspondence runner.
     ExtrOcamlBasic only; no Extract Constant of our own. *)
-From Nexus Require Import Router.Wire.
+From Nexus Require Import Router.Wire Router.RouterTop.
 Require Extraction.
 From Coq Require Import ExtrOcamlBasic.
 Extraction Language OCaml.
-Extraction "router_model.ml" step init_realm sizes msg_value z_to_string z_of_string n_to_string
+Extraction "router_model.ml" rstep mkRouter step init_realm sizes msg_value z_to_string z_of_string n_to_string
   table_authz mkRule mkConfig mkHistCfg N.of_nat N.to_nat.
